@@ -61,7 +61,127 @@ def _unpack_params(ts_len, step_bytes, err_bytes) -> UnpackParams:
                           lambda: UnpackParams(ts_len, step_bytes, err_bytes))
 
 
+# ---- derived values a request ID remembers (case key "hist" of req_pack): read, change its public state, read ----
+REQ_VIEW_NAMES = ["u32", "hash", "pack", "fields", "decoded", "lookup"]
+
+
+def _req_views(final):
+    """the views of one request ID as plain values: 32-bit form, hash, packed form, field view, comparison (== and hash,
+    both directions) with the request ID decoded from its own packed octets and with one built from the final values,
+    and its use as a dictionary key (what the verification bookkeeping of an application does)"""
+    def v_decoded(r):
+        back, ref = RequestId.unpack(bytes(r.pack()) + b"\x77"), _req(final)
+        return {"eq_decoded": [bool(r == back), bool(back == r), hash(r) == hash(back)],
+                "eq_final": [bool(r == ref), bool(ref == r), hash(r) == hash(ref)], "u32_decoded": int(back.as_u32())}
+
+    def v_lookup(r):
+        return {r: "found"}.get(RequestId.unpack(bytes(r.pack())), "missing")
+    return [("u32", lambda r: int(r.as_u32())), ("hash", lambda r: hash(r)),
+            ("pack", lambda r: hx(core.pack_stable(r, "RequestId.pack()"))), ("fields", _req_fields),
+            ("decoded", v_decoded), ("lookup", v_lookup)]
+
+
+def _req_consistent(r: RequestId, what: str):
+    """one request ID, whatever was done to it: its packed form is its 32-bit form big-endian, its field view composes to
+    the same 32 bits, it equals (and hashes like) the request ID decoded from its own octets and is found under it in a dict"""
+    raw, u32, f = bytes(r.pack()), int(r.as_u32()), _req_fields(r)
+    word = (f["version"] << 29) | (f["ptype"] << 28) | (f["shf"] << 27) | (f["apid"] << 16) | (f["flags"] << 14) | f["count"]
+    if raw != u32.to_bytes(4, "big") or word != u32:
+        raise SelfCheckFailure(f"{what}: pack() = {raw.hex()}, as_u32() = {u32:#010x}, its public fields say {word:#010x}: the forms of "
+                               f"one request id disagree")
+    back = RequestId.unpack(raw)
+    if not (r == back) or not (back == r) or hash(r) != hash(back) or {r: 1}.get(back) != 1 or {back: 1}.get(r) != 1:
+        raise SelfCheckFailure(f"{what}: the request id {raw.hex()} and the one decoded from its octets are not equal / do not hash "
+                               f"equal / do not find each other as dictionary keys")
+    return u32
+
+
+def _sph_of(v) -> SpacePacketHeader:
+    return SpacePacketHeader(packet_type=PacketType(v["ptype"]), apid=v["apid"], seq_count=v["count"], data_len=0x0102,
+                             sec_header_flag=bool(v["shf"]), seq_flags=SequenceFlags(v["flags"]), ccsds_version=v["version"])
+
+
+def _set_or_replace(holder, attr: str, changes, rebuild):
+    """the public attributes of the part `holder.<attr>` are assigned one by one; if the part does not take assignments
+    (an implementation may make packet ID / sequence control immutable values) a new part is stored instead"""
+    part = getattr(holder, attr)
+    if not all(core.tolerant_set(part, n, v) for n, v in changes):
+        setattr(holder, attr, rebuild())
+
+
+def _req_mutate(r: RequestId, old, new, path: str):
+    """old -> new through the public state of a request ID: "assign" new PacketId / PacketSeqCtrl objects and version,
+    "inplace" the attributes of the PacketId / PacketSeqCtrl it holds"""
+    pid = lambda: PacketId(PacketType(new["ptype"]), bool(new["shf"]), new["apid"])      # noqa: E731
+    psc = lambda: PacketSeqCtrl(SequenceFlags(new["flags"]), new["count"])                # noqa: E731
+    if path == "inplace":
+        _set_or_replace(r, "tc_packet_id", [(n, v) for k, n, v in (("ptype", "ptype", PacketType(new["ptype"])),
+                                                                    ("shf", "sec_header_flag", bool(new["shf"])),
+                                                                    ("apid", "apid", new["apid"])) if old[k] != new[k]], pid)
+        _set_or_replace(r, "tc_psc", [(n, v) for k, n, v in (("flags", "seq_flags", SequenceFlags(new["flags"])),
+                                                              ("count", "seq_count", new["count"])) if old[k] != new[k]], psc)
+    else:
+        if any(old[k] != new[k] for k in ("ptype", "shf", "apid")) or path == "assign+all":
+            r.tc_packet_id = pid()
+        if any(old[k] != new[k] for k in ("flags", "count")) or path == "assign+all":
+            r.tc_psc = psc()
+    if old["version"] != new["version"] or path == "assign+all":
+        r.ccsds_version = new["version"]
+
+
+def _req_after_history(a) -> RequestId:
+    """the request ID of the case's parameters, reached the long way (see key "hist").
+    source "fields" / "unpack" / "sp_header" / "pus_tc": how the request ID was obtained with the OLD values; then views
+    are read; then it is changed to the case's values ("assign" / "inplace"), or - path "header" - the space packet header
+    (telecommand) it was taken from is changed to them through the header's setters. Whether a request ID follows the
+    header it was taken from is not claimed either way: it only has to stay ONE request ID (all its forms agree), and a
+    request ID taken from the header afterwards is the one the model packs."""
+    h = a["hist"]
+    old, src, path = h["from"], h.get("source", "fields"), h.get("path", "assign")
+    keep = {}
+
+    def make():
+        if src == "unpack":
+            return RequestId.unpack(bytes(_req(old).pack()) + b"\x01")
+        if src == "sp_header":
+            keep["hdr"] = _sph_of(old)
+            return RequestId.from_sp_header(keep["hdr"])
+        if src == "pus_tc":
+            tc = PusTc(service=17, subservice=1, apid=old["apid"], seq_count=old["count"], app_data=b"\x01\x02")
+            keep["tc"], keep["hdr"] = tc, tc.sp_header
+            return RequestId.from_pus_tc(tc)
+        return _req(old)
+    if path != "header":
+        got = {}
+        err = core.read_mutate_read(make, _req_views(a), lambda r: _req_mutate(r, old, a, path), lambda: _req(a), "RequestId",
+                                    first=h.get("read"), after=h.get("after"), out=got)
+        if err:
+            raise SelfCheckFailure(err)
+        _req_consistent(got["obj"], "RequestId changed through its public attributes")
+        return got["obj"]
+    r = make()
+    core.read_views(r, _req_views(old), h.get("read"))
+    hdr = keep["hdr"]
+    for k, n, v in (("apid", "apid", a["apid"]), ("count", "seq_count", a["count"]), ("ptype", "packet_type", PacketType(a["ptype"])),
+                    ("shf", "sec_header_flag", bool(a["shf"])), ("flags", "seq_flags", SequenceFlags(a["flags"]))):
+        if old[k] != a[k]:
+            setattr(keep["tc"] if ("tc" in keep and k in ("apid", "count")) else hdr, n, v)
+    for n in (h.get("after") or REQ_VIEW_NAMES):
+        if n in ("u32", "hash", "pack", "fields"):
+            dict(_req_views(old))[n](r)
+        _req_consistent(r, f"RequestId taken from a header ({src}) that was changed afterwards through its setters (last read: {n})")
+    now = RequestId.from_sp_header(hdr) if "tc" not in keep else RequestId.from_pus_tc(keep["tc"])
+    if bytes(now.pack()) != bytes(hdr.pack())[:4]:
+        raise SelfCheckFailure("request id of a header is not the header's first four octets")
+    _req_consistent(now, "RequestId taken from a header after the header was changed")
+    return now
+
+
 def op_req_pack(a):
+    # (a header has no setter for the version bits: a "header" history that would need one is no history)
+    if a.get("hist") and not (a["hist"].get("path") == "header" and a["version"] != a["hist"]["from"]["version"]):
+        r = _req_after_history(a)
+        return {"raw": hx(core.pack_stable(r, "RequestId.pack()")), "u32": int(r.as_u32())}
     r = _req(a)
     # (packs twice, the caller modifying the first returned buffer in between)
     raw = core.pack_stable(r, "RequestId.pack()")
@@ -107,6 +227,27 @@ def op_pfe_unpack(a):
 _PFE_HELPERS = {"U8": (PacketFieldU8, 8), "U16": (PacketFieldU16, 16), "U32": (PacketFieldU32, 32)}
 
 
+def _pfe_after_history(a) -> PacketFieldEnum:
+    """key "hist" of pfe_pack: the field enumeration was built with another PFC / value, its width and octets were read,
+    then `pfc` / `val` were assigned: width, octets and == are those of a field built directly with the final values"""
+    h = a["hist"]
+    old = h["from"]
+    views = [("len", lambda f: int(f.len())), ("pack", lambda f: hx(core.pack_stable(f, "PacketFieldEnum.pack()"))),
+             ("fields", _pfe_fields), ("eq", lambda f: [bool(f == _pfe(a)), bool(_pfe(a) == f)])]
+
+    def mutate(f):
+        if old["pfc"] != a["pfc"]:
+            f.pfc = a["pfc"]
+        if old["val"] != a["val"]:
+            f.val = a["val"]
+    got = {}
+    err = core.read_mutate_read(lambda: _pfe(old), views, mutate, lambda: _pfe(a), "PacketFieldEnum", first=h.get("read"),
+                                after=h.get("after"), out=got)
+    if err:
+        raise SelfCheckFailure(err)
+    return got["obj"]
+
+
 def op_pfe_pack(a):
     via = a.get("via")           # (ignored by the model op) build through the fixed-width helper class
     if via:
@@ -119,6 +260,8 @@ def op_pfe_pack(a):
         back = PacketFieldEnum.unpack(bytes(f.pack()), pfc)
         if not (back == f):
             raise SelfCheckFailure(f"PacketField{via}: the decoded field does not compare equal to the original")
+    elif a.get("hist"):
+        f = _pfe_after_history(a)
     else:
         f = PacketFieldEnum(a["pfc"], a["val"])
     raw = core.pack_stable(f, "PacketFieldEnum.pack()")
@@ -565,6 +708,41 @@ class C15(Prop):
                             "flags": (a[k] + 1) % 4, "count": a[k] ^ (1 << rng.randint(0, 13))}[k]
             yield Case({"op": "req_eq", "a": a, "b": b}, "valid", tag="eq")
             yield Case({"op": "req_pack", **a}, "valid", tag="random")
+        # a request ID that reached the case's values the long way (key "hist"): obtained with other values (from fields,
+        # decoded, from a space packet header, from a telecommand), some or all of its forms read (as_u32, hash, pack, field
+        # view, use as dictionary key), then changed through its public attributes (new PacketId / PacketSeqCtrl / version,
+        # or the attributes of the ones it holds) or - path "header" - by changing the header / telecommand it was taken
+        # from; every form read again in the order of the case. All forms of one request ID agree, equal IDs hash equal.
+        reads = [None, ["u32"], ["hash"], ["lookup"], ["pack", "fields"], []]
+        keys6 = ["version", "ptype", "shf", "apid", "flags", "count"]
+        k = 0
+        for rep in range(10 if thorough else 1):
+            for src in ("fields", "unpack", "sp_header", "pus_tc"):
+                for path in ("assign", "inplace", "assign+all", "header"):
+                    if path == "header" and src in ("fields", "unpack"):
+                        continue
+                    for rd in reads:
+                        for what in keys6 + ["all", "some"]:
+                            k += 1
+                            a = rand_req(rng, tc_like=rng.random() < 0.3)
+                            old = rand_req(rng, tc_like=(src == "pus_tc"))
+                            if what in keys6:
+                                old = dict(a)
+                                top = {"version": 7, "ptype": 1, "shf": 1, "apid": 2047, "flags": 3, "count": 16383}[what]
+                                old[what] = rng.choice([a[what] ^ top, (a[what] + 1) % (top + 1)])
+                            elif what == "some":
+                                for x in rng.sample(keys6, 3):
+                                    old[x] = a[x]
+                            if src == "pus_tc":
+                                old.update(version=0, ptype=1, shf=1, flags=3)
+                            if path == "header":
+                                a["version"] = old["version"]
+                            if a == old:
+                                continue
+                            after = list(REQ_VIEW_NAMES)
+                            rng.shuffle(after)
+                            yield Case({"op": "req_pack", **a, "hist": {"from": old, "source": src, "path": path, "read": rd,
+                                                                        "after": after}}, "valid", tag="read-set-read")
         # ---------------------------------------------------------------- packet field enum
         for pfc in range(0, 81):
             n = int(round(pfc / 8))
@@ -585,6 +763,15 @@ class C15(Prop):
                 yield Case({"op": "pfe_pack", "pfc": pfc, "val": rand_val(rng, w)}, "valid", tag="pfe-odd-pfc")
             for v in (top + 1, top + 2, 1 << 70):
                 yield Case({"op": "pfe_pack", "pfc": 8 * w, "val": v}, "invalid", errclass=True, tag="pfe-too-large")
+            # the field was built with another width / value and looked at, then pfc / val were assigned (key "hist")
+            for w0 in WIDTHS:
+                for rd in (None, ["len"], ["pack"], []):
+                    new_v = rand_val(rng, w)
+                    old_f = {"pfc": rng.choice([8 * w0] + ODD_PFCS[w0]), "val": rng.choice([new_v & ((1 << (8 * w0)) - 1), rand_val(rng, w0)])}
+                    after = ["len", "pack", "fields", "eq"]
+                    rng.shuffle(after)
+                    yield Case({"op": "pfe_pack", "pfc": rng.choice([8 * w, 8 * w] + ODD_PFCS[w]), "val": new_v,
+                                "hist": {"from": old_f, "read": rd, "after": after}}, "valid", tag="pfe-read-set-read")
             for ln in range(0, w):
                 yield Case({"op": "pfe_unpack", "pfc": 8 * w, "raw": hx(rbytes(rng, ln))}, "invalid", errclass=True, tag="pfe-short")
             for ln in (w, w + 1, w + 9):
